@@ -1478,12 +1478,38 @@ class MailExecutor(UnitsExecutor):
         return st, VSeq(ln, lambda k: X._val(ekind, z3.Select(arr, k)), ekind, tag=("filtermap", length, keep_fn, el))
 
 
+SPLITTER = "_split_mbox_messages"
+
+
+def splitter_name(repo=None):
+    """(round 8) Qualname of the mailbox splitter in the real source.  The contract is about a ROLE -- the module-level function
+    that runs `finditer` of a module-level compiled pattern over its argument -- not about a name: a private helper may be renamed.
+    The written name when it exists (or when the role is not filled by exactly one function: the contract's target is then missing
+    and the obligations end undecided, as before)."""
+    try:
+        m = loader.module(MBOX, repo)
+        if SPLITTER in m.functions:
+            return SPLITTER
+        cands = []
+        for qn, fn in m.functions.items():
+            if "." in qn or not isinstance(fn, ast.FunctionDef) or len(fn.args.posonlyargs + fn.args.args) != 1:
+                continue
+            if any(isinstance(n, ast.Call) and isinstance(n.func, ast.Attribute) and n.func.attr == "finditer"
+                   and isinstance(n.func.value, ast.Name) and n.func.value.id in m.assigns for n in ast.walk(fn)):
+                cands.append(qn)
+        if len(cands) == 1:
+            return cands[0]
+    except Exception:  # noqa
+        pass
+    return SPLITTER
+
+
 def separator_pattern_name(repo=None):
     """Name of the module-level compiled pattern the mailbox splitter runs `finditer` on -- read from the real source (whatever
     the constant is called); 'MBOX_FROM_PATTERN' when the shape is not recognised (the obligations then end `unknown`)."""
     try:
         m = loader.module(MBOX, repo)
-        fn = m.functions.get("_split_mbox_messages")
+        fn = m.functions.get(splitter_name(repo))
         names = [n.func.value.id for n in ast.walk(fn) if isinstance(n, ast.Call) and isinstance(n.func, ast.Attribute)
                  and n.func.attr == "finditer" and isinstance(n.func.value, ast.Name) and n.func.value.id in m.assigns]
         if len(set(names)) == 1:
